@@ -80,6 +80,16 @@ def gen_cases(rng, tier, version):
         for fs in tr[:600]:
             cases.append({"version": version, "turns": 4, "faults": [list(f) for f in fs],
                           "verdicts": rng.choice(verdict_patterns(4))})
+    # fault (or rejection) in turn k, rejecting verdict in turn k+1 - on the messages API (above) and, for
+    # Colang 1.0, once more with the explicit `state` object carrying the events
+    if version == "v1":
+        for f in faults:
+            t = f[0]
+            if t + 1 < turns:
+                for s in ("in_rail_0", "out_rail_1"):
+                    cases.append({"version": version, "turns": turns, "faults": [list(f)], "verdicts": {f"{t + 1}:{s}": "R"}, "api": "state"})
+        for p in pats[1:1 + turns * len(RAIL_SITES)]:
+            cases.append({"version": version, "turns": turns, "faults": [], "verdicts": p, "api": "state"})
     # hostile exception objects at every single fault site: __str__ raises / __repr__ raises /
     # unprintable non-string args.  The containment must not depend on being able to print them.
     for f in faults:
@@ -326,7 +336,11 @@ def run(tier, seed, replay=None):
     rng = random.Random(seed * 1000003 + 3)
     tm = {}
     t0 = time.time()
-    b = C.build_and_audit(PID, GEN)
+    try:
+        b = C.build_and_audit(PID, GEN)
+    except Exception as ex:   # e.g. coqdep on a file another run removed: keep going, the oracle still runs
+        import traceback
+        b = {"ok": False, "broken": ["build:exception"], "log": traceback.format_exc(), "obligations": 0, "files": [], "axioms": []}
     tm["build_and_audit_s"] = round(time.time() - t0, 1)
     C.proof_coverage(out, b, "make theories/Props/C03.vo && coqc Props/C03.v (Print Assumptions)")
     for br in b["broken"]:
@@ -376,6 +390,8 @@ def run(tier, seed, replay=None):
             dist["with_rejects"] += 1
         if case.get("texts"):
             dist["edge_texts"] = dist.get("edge_texts", 0) + 1
+        if case.get("api") == "state":
+            dist["state_api"] = dist.get("state_api", 0) + 1
         if any(len(f) > 3 for f in case["faults"]):
             dist["hostile_exceptions"] = dist.get("hostile_exceptions", 0) + 1
         for o in obs:
